@@ -704,6 +704,16 @@ def gen_session(rng, idx):
     if r.random() < 0.15: s.add(op="connack", sp=1)
     s.run(); s.recv()
     nb = 0
+    if r.random() < 0.15:
+        # a subscribe in flight across a session loss, acknowledged on the new session; then the new session is lost too
+        if r.random() < 0.8: s.sub()
+        s.add(op="hold", kinds=["SUBACK"]); s.sub()
+        s.add(op="advance", ms=1)
+        s.add(op="connack", sp=0); fault_step(s); s.add(op="advance", ms=r.choice([1, 3000]))
+        s.add(op="unhold"); s.add(op="advance", ms=1)
+        if r.random() < 0.5: nb += 1; s.add(op="bpub", qos=r.choice([0, 1]), msg="y%d" % nb)
+        s.add(op="connack", sp=r.choice([0, 0, 1])); fault_step(s); s.add(op="advance", ms=r.choice([1, 3000]))
+        nb += 1; s.add(op="bpub", qos=r.choice([0, 1, 2]), msg="y%d" % nb)
     for _ in range(r.randrange(3, 11)):
         k = r.random()
         if k < 0.22:
